@@ -16,12 +16,16 @@ META = {
             "ending in the same contents and loader are indistinguishable by every continuation; an addition that fails "
             "to compile leaves the store identical; a template once found keeps its source until removed, re-added or "
             "cleared (also across set_loader); operations on one environment leave its clones/original unchanged. "
+            "State identity: ids come from one process-wide counter, so a macro stamped by one render is refused by "
+            "every other render whatever thread it runs on (foreign_macro_rejected); mirrored by the foreign-value "
+            "stream (render-bound values exported from finished renders and used by other renders on the main "
+            "thread, new threads after 0..3 other renders, and concurrently: all results identical). "
             "The model is tied to /repo by random histories (length <= 30, up to three live environments) over the "
             "whole operation alphabet of the quantifier: after every step get_template/templates()/registries of every "
             "live environment are compared with the Lean model, and get_template(n).render(ctx) for every name with a "
             "freshly built environment holding the same contents (templates placed in random tiers and order). "
             "PARTIAL: threads and thread-local/global caches (codegen buffer pools, INTERNAL_SERIALIZATION, "
-            "VALUE_HANDLES, small-int format cache, STATE_ID) are not modelled; they are validated by failing "
+            "VALUE_HANDLES, small-int format cache) are not modelled; they are validated by failing "
             "compiles/renders/serialisations interleaved in the histories and by 8 threads rendering concurrently "
             "from the shared environment against single-threaded fresh-environment results.",
     "design_ref": "DESIGN.md §3 C15",
@@ -141,13 +145,65 @@ def process(r, exe, out, shrunk_sites):
             r.sample({"history": case, "last_step_engine": isteps[-1], "oracle": "holds" if ff is None else osteps[ff[0]]})
 
 
+WENT_AWAY = "err:InvalidOperation:cannot call this macro. template state went away."
+MODEL_TO_IMPL = {"free": "ok", "accepted": "ok", "rejected": "rejected", "-": "-"}
+
+
+def impl_class(v):
+    if v == "-":
+        return "-"
+    if v == WENT_AWAY:
+        return "rejected"
+    if v.startswith("ok:"):
+        return "ok"
+    return v
+
+
+def process_foreign(r, exe, out):
+    """foreign-value stream: render-bound values exported from one render and used by other renders on
+    the main thread, new threads (after 0..3 other renders) and concurrently"""
+    lines = out.splitlines()
+    model = r.driver("drive_c15", "".join(l.split("\t")[0] + "\n" for l in lines))
+    if model is None or len(model) != len(lines):
+        r.broken.append("model driver output does not line up with the foreign-value cases")
+        model = None
+    for li, line in enumerate(lines):
+        f = line.split("\t")
+        if len(f) != 3:
+            r.broken.append("malformed foreign-value line: " + line[:200])
+            continue
+        case, variants, verdict = f
+        _, x, site, consumer, via = case.split(":")
+        vs = variants.split(" / ")
+        r.count(case, consumer != "info" and x != "6", n=len(vs))
+        r.extra["foreign_value_cases"] = r.extra.get("foreign_value_cases", 0) + 1
+        r.hist["foreign_consumer"][consumer + "/" + via] += 1
+        r.hist["foreign_export_site"][site] += 1
+        classes = [impl_class(v) for v in vs]
+        for c in classes:
+            r.hist["foreign_result"][c if c in ("ok", "rejected", "-") else c[:40]] += 1
+        if model is not None:
+            want = [MODEL_TO_IMPL.get(m, m) for m in model[li].split("\t")[1].split(" / ")]
+            if want != classes:
+                r.model_disagreement(case, " / ".join(classes), " / ".join(want))
+        if verdict != "=":
+            m = FAIL_RE.search(verdict)
+            r.oracle_failure(case, "render-bound value exported from one render, used in another: " +
+                             (m.group(2) if m else verdict), f"foreign:{consumer}")
+        if li % 97 == 0:
+            r.sample({"foreign_case": case, "main_thread": vs[0], "all_variants_equal": verdict == "="})
+
+
 def run(r):
     r.rule = ("random histories (length 1..30, up to 3 live environments created by clone) over {add_template, "
               "add_template_owned, remove_template, clear_templates, set_loader (5 tables), add/remove filter/test/global, "
               "clone, render (3 contexts incl. a failing serialisation), failing compiles/renders, 8-thread phase}; 4 names x "
               "16 sources (2 broken, 2 failing at run time, includes/extends/imports between the names). evaluations = "
               "history steps (each step compares every name of every live environment); a history is non-trivial when it "
-              "is distinct, changes the store or loader and performs a lookup")
+              "is distinct, changes the store or loader and performs a lookup. Plus the foreign-value stream: 9 exporters "
+              "(macro, closure macro, namespace, set-export, module, caller, loop, from-import, nested macro) x 5 export "
+              "sites x 4 consumers x {context, global}, each used on the main thread, on new threads after 0..3 other "
+              "renders, on the exporting thread and on 2x4 concurrent threads (all 14 results must be identical)")
     r.assumptions = ["Arc's strong count equals the number of live handles (std)",
                      "the loader is a pure function of the name",
                      "rendering is a function of the templates looked up, registries and context (validated against a fresh environment, not proved)",
@@ -166,6 +222,11 @@ def run(r):
             continue
         r.extra["corpus_histories"] = r.extra.get("corpus_histories", 0) + len(out.splitlines())
         process(r, exe, out, shrunk)
+    rc, out, err = r.harness(exe, ["foreign", "3" if r.tier == "quick" else "20"])
+    if rc != 0:
+        r.broken.append(f"harness c15 foreign exited {rc}: {err[-300:]}")
+    else:
+        process_foreign(r, exe, out)
     # mjh::Rng streams of neighbouring seeds overlap (same sequence shifted by one draw), so the
     # harness seeds are spread by a hash of (VERIF_SEED, chunk)
     def spread(i):
@@ -190,6 +251,17 @@ def replay(r, path):
         cases.append(c.get("case"))
     for case in cases:
         if not case:
+            continue
+        if case.startswith("fx:"):
+            rc, out, err = r.harness(exe, ["fone", case])
+            model = r.driver("drive_c15", case + "\n")
+            f = out.rstrip("\n").split("\t")
+            print("foreign-value case:", f[0])
+            labels = ["main", "new+0", "new+1", "new+2", "new+3", "exporter+1"] + [f"conc0.{i}" for i in range(4)] + [f"concK.{i}" for i in range(4)]
+            ms = model[0].split("\t")[1].split(" / ") if model else [None] * 14
+            for lab, v, m in zip(labels, f[1].split(" / "), ms):
+                print(f"   {lab:11s} engine: {v}    model: {m}")
+            print("   oracle:", f[2])
             continue
         rc, out, err = r.harness(exe, ["one", case, "--once"])
         model = r.driver("drive_c15", out)
